@@ -173,3 +173,37 @@ def run(ck, prog):
     _run_pre_progress(ck, prog)
     from sa import progress
     progress.run_rule(ck, prog, set(DIMENSION_FILES))
+
+
+# ------------------------------------------------------------------ generic: no magnitude is compared with a signed raw element
+_run_pre_magnitude = run
+
+
+def run(ck, prog):
+    _run_pre_magnitude(ck, prog)
+    from sa import magnitude
+    magnitude.run_rule(ck, prog, set(DIMENSION_FILES))
+
+
+# ------------------------------------------------------------------ generic: backward strided scans (`j -= step`) continue exactly while j >= step
+_run_pre_subguard = run
+
+
+def run(ck, prog):
+    _run_pre_subguard(ck, prog)
+    from sa import subguard
+    subguard.run_rule(ck, prog, set(DIMENSION_FILES))
+
+
+# ------------------------------------------------------------------ the EVD path (n <= p, correlation mode): tred2's skip branch (C02's rule)
+_run_pre_tred2skip = run
+
+
+def run(ck, prog):
+    _run_pre_tred2skip(ck, prog)
+    from props import C02
+    C02.tred2_skip_branch(ck, prog)
+
+
+EXPLANATION += (" EVD path: tred2's zero-scale branch reloads the work vector from a row it does not clear (C02's rule; a feature exactly "
+                "uncorrelated with the others, or a constant column in wide data, takes that branch).")
